@@ -29,6 +29,24 @@ class TwoArgs(Exception):
         self.b = b
 
 
+class StatusError(Exception):
+    """constructor reads an attribute of its argument: given a plain string it fails with AttributeError, not TypeError"""
+
+    def __init__(self, response):
+        super().__init__(response.status)
+        self.response = response
+
+    def __reduce__(self):      # picklable (its default reduce would call StatusError(503))
+        return (StatusError, (self.response,))
+
+
+class Resp:
+    status = 503
+
+    def __eq__(self, other):
+        return isinstance(other, Resp)
+
+
 def target(kind):
     if kind == 'none':
         return None
@@ -40,6 +58,8 @@ def target(kind):
         raise ValueError('x')
     if kind == 'two_args':
         raise TwoArgs('a', 2)
+    if kind == 'status_error':
+        raise StatusError(Resp())
     if kind == 'exit_none':
         sys.exit()
     if kind == 'exit0':
@@ -51,12 +71,13 @@ def target(kind):
     raise AssertionError(kind)
 
 
-KINDS = ['none', 'zero', 'obj', 'value_error', 'two_args', 'exit_none', 'exit0', 'exit1', 'exit_msg']
+KINDS = ['none', 'zero', 'obj', 'value_error', 'two_args', 'status_error', 'exit_none', 'exit0', 'exit1', 'exit_msg']
 ACCESSORS = ['join', 'result', 'exception', 'done', 'wait', 'as_completed']
 
 EXPECT = {   # kind -> (value, exception type name, exception args, process exitcode)
     'none': (None, None, None, 0), 'zero': (0, None, None, 0), 'obj': ({'k': [1, 2]}, None, None, 0),
     'value_error': (None, 'ValueError', ('x',), 1), 'two_args': (None, 'TwoArgs', ('a', 2), 1),
+    'status_error': (None, 'StatusError', (503,), 1),
     'exit_none': (None, None, None, 0), 'exit0': (None, None, None, 0),
     'exit1': (None, 'SystemExit', (1,), 1), 'exit_msg': (None, 'SystemExit', ('msg',), 1),
 }
